@@ -277,6 +277,13 @@ func (m *monitor) runFaultCase(cfg *config, ci, i int) {
 	sort.Slice(hits, func(a, b int) bool { return hits[a].Seq < hits[b].Seq })
 	k.Status, k.Forwarded, k.NHits, k.Events = rs.Status, len(hits) > 0, len(hits), evs
 	rep.Count("fault_cases", 1)
+	atomic.AddInt64(&m.faultCases, 1)
+	if len(evs) > 0 && evs[0].Reused {
+		atomic.AddInt64(&m.faultReused, 1)
+		rep.Count("fault_case_arrived_on_reused_connection", 1)
+	} else if len(evs) > 0 {
+		rep.Count("fault_case_arrived_on_fresh_connection", 1)
+	}
 	rep.Count(fmt.Sprintf("fault_case_status_%d", rs.Status), 1)
 	if rs.Err != nil {
 		rep.Count("fault_case_client_errors", 1)
